@@ -84,7 +84,7 @@ class HandoverClient(object):
         try:
             records = list(ndef.message_decoder(octets, 'relax')) \
                 if octets else []
-        except ndef.DecodeError as error:
+        except (ndef.DecodeError, ValueError) as error:
             log.error(repr(error))
             records = []
         if records and records[0].type == "urn:nfc:wkt:Hs":
@@ -108,7 +108,7 @@ class HandoverClient(object):
                 list(ndef.message_decoder(octets, 'strict', {}))
                 log.debug("<<< %s", binascii.hexlify(octets).decode())
                 return bytes(octets)
-            except ndef.DecodeError:
+            except (ndef.DecodeError, ValueError):
                 log.debug("message is incomplete (%d byte)", len(octets))
                 if timeout:
                     timeout -= time.time() - started
